@@ -10,8 +10,13 @@ package base
 import (
 	_ "embed"
 	"fmt"
+	"go/ast"
+	"go/token"
 	"go/types"
+	"hash/fnv"
+	"reflect"
 	"sort"
+	"strconv"
 	"strings"
 
 	"golang.org/x/tools/go/packages"
@@ -22,34 +27,64 @@ var symbolsText string
 
 // Symbols is the parsed baseline.
 type Symbols struct {
-	Funcs   map[string]map[string]string            // pkg -> name -> signature
-	Methods map[string]map[string]map[string]string // pkg -> type -> name -> signature
-	Fields  map[string]map[string]map[string]string // pkg -> struct -> field -> type
-	Types   map[string]map[string]string            // pkg -> name -> shape
+	Funcs    map[string]map[string]string            // pkg -> name -> signature
+	Methods  map[string]map[string]map[string]string // pkg -> type -> name -> signature
+	Fields   map[string]map[string]map[string]string // pkg -> struct -> field -> type
+	FieldIdx map[string]map[string]map[string]int    // pkg -> struct -> field -> position
+	Types    map[string]map[string]string            // pkg -> name -> shape
+	Loose    map[string]map[string]string            // pkg -> name -> shape without member names
+	Sketch   map[string][]uint32                     // "pkg.Name" / "pkg.Type.Name" -> body sketch
 }
 
 func newSymbols() *Symbols {
-	return &Symbols{Funcs: map[string]map[string]string{}, Methods: map[string]map[string]map[string]string{}, Fields: map[string]map[string]map[string]string{}, Types: map[string]map[string]string{}}
+	return &Symbols{Funcs: map[string]map[string]string{}, Methods: map[string]map[string]map[string]string{}, Fields: map[string]map[string]map[string]string{}, FieldIdx: map[string]map[string]map[string]int{}, Types: map[string]map[string]string{}, Loose: map[string]map[string]string{}, Sketch: map[string][]uint32{}}
+}
+
+func parseSketch(s string) []uint32 {
+	var out []uint32
+	for _, f := range strings.Fields(s) {
+		if v, err := strconv.ParseUint(f, 16, 32); err == nil {
+			out = append(out, uint32(v))
+		}
+	}
+	return out
 }
 
 // Load parses the embedded baseline.
 func Load() *Symbols {
 	s := newSymbols()
 	for _, l := range strings.Split(symbolsText, "\n") {
-		parts := strings.SplitN(l, " | ", 2)
-		if len(parts) != 2 {
+		parts := strings.Split(l, " | ")
+		if len(parts) < 2 {
 			continue
 		}
 		f := strings.Fields(parts[0])
 		switch {
 		case len(f) == 3 && f[0] == "F":
 			m2(s.Funcs, f[1])[f[2]] = parts[1]
+			if len(parts) > 2 {
+				s.Sketch[f[1]+"."+f[2]] = parseSketch(parts[2])
+			}
 		case len(f) == 4 && f[0] == "M":
 			m3(s.Methods, f[1], f[2])[f[3]] = parts[1]
-		case len(f) == 4 && f[0] == "S":
-			m3(s.Fields, f[1], f[2])[f[3]] = parts[1]
+			if len(parts) > 2 {
+				s.Sketch[f[1]+"."+f[2]+"."+f[3]] = parseSketch(parts[2])
+			}
+		case len(f) == 4 && f[0] == "S" && len(parts) == 3:
+			idx, _ := strconv.Atoi(parts[1])
+			m3(s.Fields, f[1], f[2])[f[3]] = parts[2]
+			if s.FieldIdx[f[1]] == nil {
+				s.FieldIdx[f[1]] = map[string]map[string]int{}
+			}
+			if s.FieldIdx[f[1]][f[2]] == nil {
+				s.FieldIdx[f[1]][f[2]] = map[string]int{}
+			}
+			s.FieldIdx[f[1]][f[2]][f[3]] = idx
 		case len(f) == 3 && f[0] == "T":
 			m2(s.Types, f[1])[f[2]] = parts[1]
+			if len(parts) > 2 {
+				m2(s.Loose, f[1])[f[2]] = parts[2]
+			}
 		}
 	}
 	return s
@@ -72,23 +107,19 @@ func m3(m map[string]map[string]map[string]string, a, b string) map[string]strin
 	return m[a][b]
 }
 
-func recvName(sig *types.Signature) string {
-	if sig.Recv() == nil {
-		return ""
+func unnamed(t *types.Tuple) *types.Tuple {
+	var vs []*types.Var
+	for i := 0; i < t.Len(); i++ {
+		vs = append(vs, types.NewVar(token.NoPos, nil, "", t.At(i).Type()))
 	}
-	t := sig.Recv().Type()
-	if p, ok := t.(*types.Pointer); ok {
-		t = p.Elem()
-	}
-	if n, ok := t.(*types.Named); ok {
-		return n.Obj().Name()
-	}
-	return ""
+	return types.NewTuple(vs...)
 }
 
-// sigString prints a signature without the receiver, with full package paths.
-func sigString(sig *types.Signature, ptrRecv bool) string {
-	s := types.TypeString(types.NewSignatureType(nil, nil, nil, sig.Params(), sig.Results(), sig.Variadic()), nil)
+// sigString prints a signature without the receiver and without parameter
+// names (renaming a parameter is not a change of the signature), with full
+// package paths; the first character tells pointer from value receivers.
+func sigString(sig *types.Signature) string {
+	s := types.TypeString(types.NewSignatureType(nil, nil, nil, unnamed(sig.Params()), unnamed(sig.Results()), sig.Variadic()), nil)
 	if sig.Recv() != nil {
 		if _, ok := sig.Recv().Type().(*types.Pointer); ok {
 			return "*" + s
@@ -98,15 +129,26 @@ func sigString(sig *types.Signature, ptrRecv bool) string {
 	return s
 }
 
-// shapeOf describes a named type independent of its own name.
-func shapeOf(n *types.Named) string {
+// shapeOf describes a named type independent of its own name; loose also
+// leaves out the names of fields and methods (their order and types stay).
+func shapeOf(n *types.Named, loose bool) string {
 	self := types.TypeString(n, nil)
+	if n.TypeParams().Len() > 0 {
+		self = types.TypeString(n.Origin(), nil)
+		if i := strings.Index(self, "["); i > 0 {
+			self = self[:i]
+		}
+	}
 	var s string
 	switch u := n.Underlying().(type) {
 	case *types.Struct:
 		var fs []string
 		for i := 0; i < u.NumFields(); i++ {
-			fs = append(fs, u.Field(i).Name()+" "+types.TypeString(u.Field(i).Type(), nil))
+			name := u.Field(i).Name() + " "
+			if loose && !u.Field(i).Embedded() {
+				name = ""
+			}
+			fs = append(fs, name+types.TypeString(u.Field(i).Type(), nil))
 		}
 		s = "struct{" + strings.Join(fs, "; ") + "}"
 	default:
@@ -114,16 +156,224 @@ func shapeOf(n *types.Named) string {
 	}
 	var ms []string
 	for i := 0; i < n.NumMethods(); i++ {
+		if loose {
+			m := n.Method(i)
+			if m.Exported() {
+				ms = append(ms, m.Name())
+			} else {
+				ms = append(ms, "_")
+			}
+			continue
+		}
 		ms = append(ms, n.Method(i).Name())
 	}
 	sort.Strings(ms)
 	s += " methods{" + strings.Join(ms, ",") + "}"
-	return strings.ReplaceAll(s, self, "SELF")
+	return replaceWord(s, self, "SELF")
+}
+
+func isIdentByte(b byte) bool {
+	return b == '_' || b >= '0' && b <= '9' || b >= 'a' && b <= 'z' || b >= 'A' && b <= 'Z' || b >= 0x80
+}
+
+// replaceWord replaces old where it is not followed by an identifier byte.
+func replaceWord(s, old, new string) string {
+	if old == "" || !strings.Contains(s, old) {
+		return s
+	}
+	var b strings.Builder
+	for {
+		i := strings.Index(s, old)
+		if i < 0 {
+			b.WriteString(s)
+			return b.String()
+		}
+		end := i + len(old)
+		if end < len(s) && isIdentByte(s[end]) {
+			b.WriteString(s[:end])
+			s = s[end:]
+			continue
+		}
+		b.WriteString(s[:i])
+		b.WriteString(new)
+		s = s[end:]
+	}
+}
+
+// ---- body sketches ----
+//
+// The sketch of a function body is the bottom-k set of hashes of the 4-grams
+// of its syntax-tree shape: node kinds, operators, literals and the names of
+// things a refactoring of this module cannot rename (universe, other modules,
+// exported symbols); every other identifier is a placeholder. A pure rename
+// leaves the sketch unchanged.
+
+const sketchK = 48
+
+func bodyTokens(info *types.Info, isMod func(*types.Package) bool, body ast.Node) []string {
+	var toks []string
+	ast.Inspect(body, func(n ast.Node) bool {
+		if n == nil {
+			return false
+		}
+		switch x := n.(type) {
+		case *ast.Ident:
+			obj := info.Uses[x]
+			if obj == nil {
+				obj = info.Defs[x]
+			}
+			switch {
+			case obj == nil:
+				toks = append(toks, "id")
+			case obj.Pkg() == nil || !isMod(obj.Pkg()):
+				toks = append(toks, "id:"+obj.Name())
+			case obj.Exported():
+				toks = append(toks, "id:"+obj.Name())
+			default:
+				toks = append(toks, "id")
+			}
+			return false
+		case *ast.BasicLit:
+			toks = append(toks, "lit:"+x.Value)
+			return false
+		case *ast.BinaryExpr:
+			toks = append(toks, "bin:"+x.Op.String())
+		case *ast.UnaryExpr:
+			toks = append(toks, "un:"+x.Op.String())
+		case *ast.AssignStmt:
+			toks = append(toks, "as:"+x.Tok.String())
+		case *ast.IncDecStmt:
+			toks = append(toks, "inc:"+x.Tok.String())
+		case *ast.BranchStmt:
+			toks = append(toks, "br:"+x.Tok.String())
+			return false
+		case *ast.LabeledStmt:
+			toks = append(toks, "label")
+		case *ast.CommentGroup, *ast.Comment:
+			return false
+		default:
+			toks = append(toks, reflect.TypeOf(n).Elem().Name())
+		}
+		return true
+	})
+	return toks
+}
+
+func sketchOf(toks []string) []uint32 {
+	set := map[uint32]bool{}
+	const n = 4
+	if len(toks) < n {
+		h := fnv.New32a()
+		h.Write([]byte(strings.Join(toks, " ")))
+		set[h.Sum32()] = true
+	}
+	for i := 0; i+n <= len(toks); i++ {
+		h := fnv.New32a()
+		h.Write([]byte(strings.Join(toks[i:i+n], " ")))
+		set[h.Sum32()] = true
+	}
+	var out []uint32
+	for v := range set {
+		out = append(out, v)
+	}
+	sort.Slice(out, func(i, j int) bool { return out[i] < out[j] })
+	if len(out) > sketchK {
+		out = out[:sketchK]
+	}
+	return out
+}
+
+// similarity estimates the Jaccard similarity of two bottom-k sketches.
+func similarity(a, b []uint32) float64 {
+	if len(a) == 0 || len(b) == 0 {
+		return 0
+	}
+	// union's bottom-k, count of members present in both
+	i, j, taken, both := 0, 0, 0, 0
+	for taken < sketchK && (i < len(a) || j < len(b)) {
+		switch {
+		case j >= len(b) || i < len(a) && a[i] < b[j]:
+			i++
+		case i >= len(a) || b[j] < a[i]:
+			j++
+		default:
+			both++
+			i++
+			j++
+		}
+		taken++
+	}
+	return float64(both) / float64(taken)
+}
+
+func sketchString(s []uint32) string {
+	var fs []string
+	for _, v := range s {
+		fs = append(fs, strconv.FormatUint(uint64(v), 16))
+	}
+	return strings.Join(fs, " ")
+}
+
+// bodySketches maps every function object declared in the packages to the
+// sketch of its body.
+func bodySketches(pkgs []*packages.Package) map[*types.Func][]uint32 {
+	mod := map[*types.Package]bool{}
+	for _, pk := range pkgs {
+		mod[pk.Types] = true
+	}
+	isMod := func(p *types.Package) bool {
+		return mod[p] || strings.HasPrefix(p.Path(), "github.com/lightninglabs/neutrino")
+	}
+	out := map[*types.Func][]uint32{}
+	for _, pk := range pkgs {
+		for _, f := range pk.Syntax {
+			for _, d := range f.Decls {
+				fd, ok := d.(*ast.FuncDecl)
+				if !ok || fd.Body == nil {
+					continue
+				}
+				if obj, ok := pk.TypesInfo.Defs[fd.Name].(*types.Func); ok {
+					out[obj] = sketchOf(bodyTokens(pk.TypesInfo, isMod, fd.Body))
+				}
+			}
+		}
+	}
+	return out
+}
+
+// typeNames: the package-level named types plus the function-local ones whose
+// name is unique in the package.
+func typeNames(pk *packages.Package) map[string]*types.TypeName {
+	out := map[string]*types.TypeName{}
+	sc := pk.Types.Scope()
+	for _, name := range sc.Names() {
+		if tn, ok := sc.Lookup(name).(*types.TypeName); ok {
+			out[name] = tn
+		}
+	}
+	local := map[string][]*types.TypeName{}
+	for _, obj := range pk.TypesInfo.Defs {
+		tn, ok := obj.(*types.TypeName)
+		if !ok || tn.Parent() == sc || tn.Parent() == nil {
+			continue
+		}
+		if _, isNamed := tn.Type().(*types.Named); !isNamed {
+			continue
+		}
+		local[tn.Name()] = append(local[tn.Name()], tn)
+	}
+	for name, l := range local {
+		if len(l) == 1 && out[name] == nil {
+			out[name] = l[0]
+		}
+	}
+	return out
 }
 
 // Generate prints the symbol table of the given packages.
 func Generate(pkgs []*packages.Package, excluded func(string) bool) string {
 	var out []string
+	sk := bodySketches(pkgs)
 	for _, pk := range pkgs {
 		sc := pk.Types.Scope()
 		for _, name := range sc.Names() {
@@ -131,27 +381,30 @@ func Generate(pkgs []*packages.Package, excluded func(string) bool) string {
 			if excluded(pk.Fset.Position(obj.Pos()).Filename) {
 				continue
 			}
-			switch o := obj.(type) {
-			case *types.Func:
-				out = append(out, fmt.Sprintf("F %s %s | %s", pk.PkgPath, name, sigString(o.Type().(*types.Signature), false)))
-			case *types.TypeName:
-				n, ok := o.Type().(*types.Named)
-				if !ok || o.IsAlias() {
+			if o, ok := obj.(*types.Func); ok {
+				out = append(out, fmt.Sprintf("F %s %s | %s | %s", pk.PkgPath, name, sigString(o.Type().(*types.Signature)), sketchString(sk[o])))
+			}
+		}
+		for name, o := range typeNames(pk) {
+			if excluded(pk.Fset.Position(o.Pos()).Filename) {
+				continue
+			}
+			n, ok := o.Type().(*types.Named)
+			if !ok || o.IsAlias() {
+				continue
+			}
+			out = append(out, fmt.Sprintf("T %s %s | %s | %s", pk.PkgPath, name, shapeOf(n, false), shapeOf(n, true)))
+			if st, ok := n.Underlying().(*types.Struct); ok {
+				for i := 0; i < st.NumFields(); i++ {
+					out = append(out, fmt.Sprintf("S %s %s %s | %d | %s", pk.PkgPath, name, st.Field(i).Name(), i, types.TypeString(st.Field(i).Type(), nil)))
+				}
+			}
+			for i := 0; i < n.NumMethods(); i++ {
+				m := n.Method(i)
+				if excluded(pk.Fset.Position(m.Pos()).Filename) {
 					continue
 				}
-				out = append(out, fmt.Sprintf("T %s %s | %s", pk.PkgPath, name, shapeOf(n)))
-				if st, ok := n.Underlying().(*types.Struct); ok {
-					for i := 0; i < st.NumFields(); i++ {
-						out = append(out, fmt.Sprintf("S %s %s %s | %s", pk.PkgPath, name, st.Field(i).Name(), types.TypeString(st.Field(i).Type(), nil)))
-					}
-				}
-				for i := 0; i < n.NumMethods(); i++ {
-					m := n.Method(i)
-					if excluded(pk.Fset.Position(m.Pos()).Filename) {
-						continue
-					}
-					out = append(out, fmt.Sprintf("M %s %s %s | %s", pk.PkgPath, name, m.Name(), sigString(m.Type().(*types.Signature), false)))
-				}
+				out = append(out, fmt.Sprintf("M %s %s %s | %s | %s", pk.PkgPath, name, m.Name(), sigString(m.Type().(*types.Signature)), sketchString(sk[m])))
 			}
 		}
 	}
@@ -168,48 +421,188 @@ type Renames struct {
 	Field   map[string]*types.Var  // "pkg.OldStruct.Old" -> current field
 	OldName map[types.Object]string
 	Notes   []string
+	// Conv: unexported functions turned into methods or the reverse (the
+	// receiver became a parameter); the analyser undoes these at source level.
+	Conv []Conversion
+}
+
+// Conversion: the baseline symbol OldName (a method of OldType when
+// OldIsMethod) is now New, with the receiver value at parameter position K of
+// the function-shaped side.
+type Conversion struct {
+	Pkg, OldType, OldName string
+	OldIsMethod           bool
+	New                   *types.Func
+	K                     int
+}
+
+// withParam returns the signature's parameter types with t inserted at k.
+func withParam(sig *types.Signature, k int, t types.Type) *types.Signature {
+	var vs []*types.Var
+	for i := 0; i <= sig.Params().Len(); i++ {
+		if i == k {
+			vs = append(vs, types.NewVar(token.NoPos, nil, "", t))
+		}
+		if i < sig.Params().Len() {
+			vs = append(vs, types.NewVar(token.NoPos, nil, "", sig.Params().At(i).Type()))
+		}
+	}
+	return types.NewSignatureType(nil, nil, nil, types.NewTuple(vs...), sig.Results(), sig.Variadic())
+}
+
+// withoutParam returns the signature without parameter k.
+func withoutParam(sig *types.Signature, k int) *types.Signature {
+	var vs []*types.Var
+	for i := 0; i < sig.Params().Len(); i++ {
+		if i != k {
+			vs = append(vs, types.NewVar(token.NoPos, nil, "", sig.Params().At(i).Type()))
+		}
+	}
+	return types.NewSignatureType(nil, nil, nil, types.NewTuple(vs...), sig.Results(), sig.Variadic())
+}
+
+// matchFuncs pairs missing baseline functions with new ones: equal signature
+// is required; among several candidates the bodies decide (clearly most
+// similar on both sides).
+func matchFuncs(olds []string, oldSig func(string) string, oldSketch func(string) []uint32, news []*types.Func, newSig func(*types.Func) string, sk map[*types.Func][]uint32) map[string]*types.Func {
+	out := map[string]*types.Func{}
+	sort.Strings(olds)
+	cands := map[string][]*types.Func{}
+	claims := map[*types.Func][]string{}
+	for _, o := range olds {
+		for _, f := range news {
+			if newSig(f) == oldSig(o) {
+				cands[o] = append(cands[o], f)
+				claims[f] = append(claims[f], o)
+			}
+		}
+	}
+	sim := func(o string, f *types.Func) float64 { return similarity(oldSketch(o), sk[f]) }
+	for _, o := range olds {
+		cs := cands[o]
+		if len(cs) == 0 {
+			continue
+		}
+		if len(cs) == 1 && len(claims[cs[0]]) == 1 {
+			out[o] = cs[0]
+			continue
+		}
+		// best candidate for o, by a clear margin, and o the best claimant of it
+		sort.Slice(cs, func(i, j int) bool { return sim(o, cs[i]) > sim(o, cs[j]) })
+		best := cs[0]
+		bs := sim(o, best)
+		if bs < 0.5 {
+			continue
+		}
+		if len(cs) > 1 && bs-sim(o, cs[1]) < 0.2 {
+			continue
+		}
+		ok := true
+		for _, other := range claims[best] {
+			if other != o && bs-sim(other, best) < 0.2 {
+				ok = false
+			}
+		}
+		if ok {
+			out[o] = best
+		}
+	}
+	return out
 }
 
 // Resolve matches missing baseline symbols with new symbols.
 func Resolve(sym *Symbols, pkgs []*packages.Package) *Renames {
 	r := &Renames{Type: map[string]string{}, TypeRev: map[string]string{}, Func: map[string]*types.Func{}, Method: map[string]*types.Func{}, Field: map[string]*types.Var{}, OldName: map[types.Object]string{}}
+	sk := bodySketches(pkgs)
 	for _, pk := range pkgs {
 		path := pk.PkgPath
 		sc := pk.Types.Scope()
 		// ---- types
+		tns := typeNames(pk)
 		var newTypes []*types.Named
-		for _, name := range sc.Names() {
-			if tn, ok := sc.Lookup(name).(*types.TypeName); ok && !tn.IsAlias() {
+		for name, tn := range tns {
+			if !tn.IsAlias() {
 				if n, ok := tn.Type().(*types.Named); ok && sym.Types[path][name] == "" {
 					newTypes = append(newTypes, n)
 				}
 			}
 		}
-		for old, shape := range sym.Types[path] {
-			if sc.Lookup(old) != nil {
-				continue
-			}
-			var cands []*types.Named
-			for _, n := range newTypes {
-				if shapeOf(n) == shape {
-					cands = append(cands, n)
-				}
-			}
-			if len(cands) == 1 {
-				nn := cands[0].Obj().Name()
-				r.Type[path+"."+old] = nn
-				r.TypeRev[path+"."+nn] = old
-				r.OldName[cands[0].Obj()] = old
-				r.Notes = append(r.Notes, fmt.Sprintf("type %s.%s is now %s", path, old, nn))
+		sort.Slice(newTypes, func(i, j int) bool { return newTypes[i].Obj().Name() < newTypes[j].Obj().Name() })
+		var oldTypes []string
+		for old := range sym.Types[path] {
+			if tns[old] == nil && sc.Lookup(old) == nil {
+				oldTypes = append(oldTypes, old)
 			}
 		}
+		sort.Strings(oldTypes)
 		// old spelling of a type string of the current tree
 		oldSpelling := func(s string) string {
 			for k, old := range r.TypeRev {
 				i := strings.LastIndex(k, ".")
-				s = strings.ReplaceAll(s, k, k[:i+1]+old)
+				s = replaceWord(s, k, k[:i+1]+old)
 			}
 			return s
+		}
+		// blank out the names of types whose fate is still open, on both sides
+		blank := func(s string) string {
+			for _, o := range oldTypes {
+				if _, done := r.Type[path+"."+o]; !done {
+					s = replaceWord(s, path+"."+o, path+".?")
+				}
+			}
+			for _, n := range newTypes {
+				if _, done := r.TypeRev[path+"."+n.Obj().Name()]; !done {
+					s = replaceWord(s, path+"."+n.Obj().Name(), path+".?")
+				}
+			}
+			return s
+		}
+		for round := 0; round < 4; round++ {
+			progress := false
+			for _, loose := range []bool{false, true} {
+				pairs := map[string][]*types.Named{}
+				claims := map[*types.Named]int{}
+				for _, old := range oldTypes {
+					if _, done := r.Type[path+"."+old]; done {
+						continue
+					}
+					want := sym.Types[path][old]
+					if loose {
+						want = sym.Loose[path][old]
+					}
+					if want == "" {
+						continue
+					}
+					want = blank(want)
+					for _, n := range newTypes {
+						if _, done := r.TypeRev[path+"."+n.Obj().Name()]; done {
+							continue
+						}
+						if blank(oldSpelling(shapeOf(n, loose))) == want {
+							pairs[old] = append(pairs[old], n)
+							claims[n]++
+						}
+					}
+				}
+				for _, old := range oldTypes {
+					cs := pairs[old]
+					if len(cs) != 1 || claims[cs[0]] != 1 {
+						continue
+					}
+					nn := cs[0].Obj().Name()
+					r.Type[path+"."+old] = nn
+					r.TypeRev[path+"."+nn] = old
+					r.OldName[cs[0].Obj()] = old
+					r.Notes = append(r.Notes, fmt.Sprintf("type %s.%s is now %s", path, old, nn))
+					progress = true
+				}
+				if progress {
+					break
+				}
+			}
+			if !progress {
+				break
+			}
 		}
 		// ---- functions
 		var newFuncs []*types.Func
@@ -218,30 +611,30 @@ func Resolve(sym *Symbols, pkgs []*packages.Package) *Renames {
 				newFuncs = append(newFuncs, f)
 			}
 		}
-		for old, sig := range sym.Funcs[path] {
-			if sc.Lookup(old) != nil {
-				continue
-			}
-			var cands []*types.Func
-			for _, f := range newFuncs {
-				if oldSpelling(sigString(f.Type().(*types.Signature), false)) == sig {
-					cands = append(cands, f)
-				}
-			}
-			if len(cands) == 1 {
-				r.Func[path+"."+old] = cands[0]
-				r.OldName[cands[0]] = old
-				r.Notes = append(r.Notes, fmt.Sprintf("func %s.%s is now %s", path, old, cands[0].Name()))
+		var oldFuncs []string
+		for old := range sym.Funcs[path] {
+			if sc.Lookup(old) == nil {
+				oldFuncs = append(oldFuncs, old)
 			}
 		}
+		newSig := func(f *types.Func) string { return oldSpelling(sigString(f.Type().(*types.Signature))) }
+		for old, f := range matchFuncs(oldFuncs, func(o string) string { return sym.Funcs[path][o] }, func(o string) []uint32 { return sym.Sketch[path+"."+o] }, newFuncs, newSig, sk) {
+			r.Func[path+"."+old] = f
+			r.OldName[f] = old
+			r.Notes = append(r.Notes, fmt.Sprintf("func %s.%s is now %s", path, old, f.Name()))
+		}
+		type oldMethod struct{ typ, name, sig string }
+		var leftOldMethods []oldMethod
+		var leftNewMethods []*types.Func
 		// ---- methods and fields, per (possibly renamed) type
 		for oldT := range sym.Types[path] {
+			oldT := oldT
 			cur := oldT
 			if nn, ok := r.Type[path+"."+oldT]; ok {
 				cur = nn
 			}
-			tn, ok := sc.Lookup(cur).(*types.TypeName)
-			if !ok {
+			tn := tns[cur]
+			if tn == nil {
 				continue
 			}
 			n, ok := tn.Type().(*types.Named)
@@ -249,27 +642,34 @@ func Resolve(sym *Symbols, pkgs []*packages.Package) *Renames {
 				continue
 			}
 			base := sym.Methods[path][oldT]
-			have := map[string]*types.Func{}
+			var newMs []*types.Func
+			have := map[string]bool{}
 			for i := 0; i < n.NumMethods(); i++ {
-				have[n.Method(i).Name()] = n.Method(i)
+				have[n.Method(i).Name()] = true
+				if base[n.Method(i).Name()] == "" {
+					newMs = append(newMs, n.Method(i))
+				}
 			}
-			for old, sig := range base {
-				if have[old] != nil {
-					continue
+			var oldMs []string
+			for old := range base {
+				if !have[old] {
+					oldMs = append(oldMs, old)
 				}
-				var cands []*types.Func
-				for name, m := range have {
-					if base[name] != "" {
-						continue
-					}
-					if oldSpelling(sigString(m.Type().(*types.Signature), false)) == sig {
-						cands = append(cands, m)
-					}
+			}
+			matched := matchFuncs(oldMs, func(o string) string { return base[o] }, func(o string) []uint32 { return sym.Sketch[path+"."+oldT+"."+o] }, newMs, newSig, sk)
+			for old, m := range matched {
+				r.Method[path+"."+oldT+"."+old] = m
+				r.OldName[m] = old
+				r.Notes = append(r.Notes, fmt.Sprintf("method %s.%s.%s is now %s", path, oldT, old, m.Name()))
+			}
+			for _, o := range oldMs {
+				if matched[o] == nil {
+					leftOldMethods = append(leftOldMethods, oldMethod{oldT, o, base[o]})
 				}
-				if len(cands) == 1 {
-					r.Method[path+"."+oldT+"."+old] = cands[0]
-					r.OldName[cands[0]] = old
-					r.Notes = append(r.Notes, fmt.Sprintf("method %s.%s.%s is now %s", path, oldT, old, cands[0].Name()))
+			}
+			for _, m := range newMs {
+				if _, isRenamed := r.OldName[m]; !isRenamed && n.TypeParams().Len() == 0 {
+					leftNewMethods = append(leftNewMethods, m)
 				}
 			}
 			st, ok := n.Underlying().(*types.Struct)
@@ -281,24 +681,138 @@ func Resolve(sym *Symbols, pkgs []*packages.Package) *Renames {
 			for i := 0; i < st.NumFields(); i++ {
 				haveF[st.Field(i).Name()] = st.Field(i)
 			}
-			for old, typ := range bf {
-				if haveF[old] != nil {
-					continue
+			taken := map[*types.Var]bool{}
+			note := func(old string, f *types.Var) {
+				r.Field[path+"."+oldT+"."+old] = f
+				r.OldName[f] = old
+				taken[f] = true
+				r.Notes = append(r.Notes, fmt.Sprintf("field %s.%s.%s is now %s", path, oldT, old, f.Name()))
+			}
+			var missing []string
+			for old := range bf {
+				if haveF[old] == nil {
+					missing = append(missing, old)
 				}
-				var cands []*types.Var
-				for name, f := range haveF {
-					if bf[name] != "" {
+			}
+			sort.Strings(missing)
+			// same position, same type, a name the baseline does not know
+			sameLen := len(bf) == st.NumFields()
+			var rest []string
+			for _, old := range missing {
+				idx, okIdx := sym.FieldIdx[path][oldT][old]
+				if okIdx && sameLen && idx < st.NumFields() {
+					f := st.Field(idx)
+					if bf[f.Name()] == "" && oldSpelling(types.TypeString(f.Type(), nil)) == bf[old] {
+						note(old, f)
 						continue
 					}
-					if oldSpelling(types.TypeString(f.Type(), nil)) == typ {
+				}
+				rest = append(rest, old)
+			}
+			for _, old := range rest {
+				var cands []*types.Var
+				for name, f := range haveF {
+					if bf[name] != "" || taken[f] {
+						continue
+					}
+					if oldSpelling(types.TypeString(f.Type(), nil)) == bf[old] {
 						cands = append(cands, f)
 					}
 				}
-				if len(cands) == 1 {
-					r.Field[path+"."+oldT+"."+old] = cands[0]
-					r.OldName[cands[0]] = old
-					r.Notes = append(r.Notes, fmt.Sprintf("field %s.%s.%s is now %s", path, oldT, old, cands[0].Name()))
+				claimants := 0
+				for _, o2 := range rest {
+					if bf[o2] == bf[old] {
+						claimants++
+					}
 				}
+				if len(cands) == 1 && claimants == 1 {
+					note(old, cands[0])
+				}
+			}
+		}
+		// ---- function <-> method conversions among what is left
+		sort.Slice(leftNewMethods, func(i, j int) bool { return leftNewMethods[i].FullName() < leftNewMethods[j].FullName() })
+		sort.Slice(leftOldMethods, func(i, j int) bool {
+			return leftOldMethods[i].typ+"."+leftOldMethods[i].name < leftOldMethods[j].typ+"."+leftOldMethods[j].name
+		})
+		type cand struct {
+			f *types.Func
+			k int
+		}
+		claimed := map[*types.Func]int{}
+		byOld := map[string][]cand{}
+		sort.Strings(oldFuncs)
+		for _, o := range oldFuncs {
+			if r.Func[path+"."+o] != nil {
+				continue
+			}
+			for _, m := range leftNewMethods {
+				sig := m.Type().(*types.Signature)
+				if sig.TypeParams().Len() > 0 {
+					continue
+				}
+				for k := 0; k <= sig.Params().Len(); k++ {
+					if sig.Variadic() && k == sig.Params().Len() {
+						continue
+					}
+					if oldSpelling(sigString(withParam(sig, k, sig.Recv().Type()))) == sym.Funcs[path][o] {
+						byOld["F "+o] = append(byOld["F "+o], cand{m, k})
+						claimed[m]++
+					}
+				}
+			}
+		}
+		for _, om := range leftOldMethods {
+			curT := om.typ
+			if nn, ok := r.Type[path+"."+om.typ]; ok {
+				curT = nn
+			}
+			for _, f := range newFuncs {
+				if _, isRenamed := r.OldName[f]; isRenamed {
+					continue
+				}
+				sig := f.Type().(*types.Signature)
+				if sig.TypeParams().Len() > 0 {
+					continue
+				}
+				for k := 0; k < sig.Params().Len(); k++ {
+					if sig.Variadic() && k == sig.Params().Len()-1 {
+						continue
+					}
+					pt := sig.Params().At(k).Type()
+					prefix := "-"
+					if p, ok := pt.(*types.Pointer); ok {
+						prefix, pt = "*", p.Elem()
+					}
+					nt, ok := pt.(*types.Named)
+					if !ok || nt.Obj().Pkg() != pk.Types || nt.Obj().Name() != curT {
+						continue
+					}
+					if prefix+oldSpelling(sigString(withoutParam(sig, k))) == om.sig {
+						key := "M " + om.typ + " " + om.name
+						byOld[key] = append(byOld[key], cand{f, k})
+						claimed[f]++
+					}
+				}
+			}
+		}
+		var keys []string
+		for k := range byOld {
+			keys = append(keys, k)
+		}
+		sort.Strings(keys)
+		for _, key := range keys {
+			cs := byOld[key]
+			if len(cs) != 1 || claimed[cs[0].f] != 1 {
+				continue
+			}
+			f := strings.Fields(key)
+			if f[0] == "F" {
+				r.Conv = append(r.Conv, Conversion{Pkg: path, OldName: f[1], New: cs[0].f, K: cs[0].k})
+				r.Notes = append(r.Notes, fmt.Sprintf("func %s.%s is now the method %s (its receiver was parameter %d)", path, f[1], cs[0].f.FullName(), cs[0].k))
+			} else {
+				r.Conv = append(r.Conv, Conversion{Pkg: path, OldType: f[1], OldName: f[2], OldIsMethod: true, New: cs[0].f, K: cs[0].k})
+				r.Notes = append(r.Notes, fmt.Sprintf("method %s.%s.%s is now the function %s (its receiver is parameter %d)", path, f[1], f[2], cs[0].f.Name(), cs[0].k))
 			}
 		}
 	}
